@@ -447,8 +447,8 @@ pub fn apply_s<T: Cellish>(op: &Op, slots: &mut Vec<SS<T>>, id0: u64, pending: &
             }
         },
         "slice_to_vec" => match take!(slots, s) {
-            SS::Slice(b, Some(cap)) => {
-                                slots[s] = SS::Vec(cr(|| b.into_vec()));
+            SS::Slice(b, _) => {
+                slots[s] = SS::Vec(cr(|| b.into_vec()));
                 out("ok")
             }
             o => {
